@@ -71,6 +71,15 @@ def registry(rng: random.Random) -> Dict[str, Callable[[int], Callable[[], objec
         # 2 x 2 addressing, so that nothing but the face-count check itself can reject it
         return cb.Grid([0, 0, 0], [1, 1, 0], 1 if n_faces < 4 else (2 if n_faces == 4 else 3), 2)
 
+    def shell_of_three(solitary_at):
+        # two squares sharing an edge and a third one either next to them (0) or far away, standing first, second or third
+        def sq(x0, y0):
+            return cb.Face([point([x0, y0, 0]), point([x0 + 1, y0, 0]), point([x0 + 1, y0 + 1, 0]), point([x0, y0 + 1, 0])])
+        joined = [sq(0, 0), sq(1, 0)]
+        third = sq(2, 0) if solitary_at == 0 else sq(7, 5)
+        faces = joined + [third] if solitary_at in (0, 3) else ([third] + joined if solitary_at == 1 else [joined[0], third, joined[1]])
+        return cb.Shell(faces, 0.3 * scale)
+
     def mesh_with_box():
         m = cb.Mesh()
         b = box()
@@ -118,6 +127,7 @@ def registry(rng: random.Random) -> Dict[str, Callable[[int], Callable[[], objec
         "LoftedShape.mid_list_second": lambda v: lambda: cb.LoftedShape(sketches(4), sketches(4).translate([0, 0, 2]),
                                                                           [sketches(4).translate([0, 0, 0.7]), sketches(v).translate([0, 0, 1.4])]),
         "Angle.angle": lambda v: lambda: factory.create(Vertex(point([1, 0, 0]), 0), Vertex(point([0, 1, 0]), 1), cb.Angle(v * math.pi / 2 if abs(v) != 1 else v * math.pi / 2, ez)).third_point,
+        "Shell.chop.faces": lambda v: lambda: shell_of_three(v).chop(count=2),
         "Curve.param": lambda v: lambda: cb.DiscreteCurve([point([i, i * i, 0]) for i in range(4)]).get_point(v),
         "Frame.add_beam.pair": lambda v: lambda: Frame().add_beam(0, 1 if v == 1 else 2, "x"),
         # class 2: assembled and cleared again - clear() undoes assemble(), the precondition is gone
